@@ -227,12 +227,13 @@ class Interp:
 
     FLOWS = ("next", "break", "continue", "return")
 
-    def __init__(self, alphabet, fns, entries=()):
+    def __init__(self, alphabet, fns, entries=(), eoi=("EOF",)):
         """fns: name -> body (list of stmts); names are 'rule_x' and 'rule_x::rec'.
         entries: functions called from outside (parse, parse_<part>, external functions)."""
         self.alphabet = list(alphabet)
         self.fns = fns
         self.ALL = set(alphabet)
+        self.eoi = set(eoi)
         self.C = {f: (set(alphabet) if f in entries else set()) for f in fns}   # possible current tokens at entry
         self.P = {f: set() for f in fns}
         self.N = {f: set() for f in fns}
@@ -302,8 +303,15 @@ class Interp:
             return r
         if k == "call":
             m = s.method
-            if m in ("advance", "advance_with_error"):
+            if m == "advance":
                 return {"next": {("P", None)}}
+            if m == "advance_with_error":
+                # consumes a token unless the input is exhausted (then current is an end-of-input token)
+                if tok is not None and tok not in self.eoi:
+                    return {"next": {("P", None)}}
+                if tok is not None:
+                    return {"next": {("P", None), state}}
+                return {"next": {("P", None), (prog if prog == "P" else "U", None)}}
             if m.startswith("rule_"):
                 return {"next": {self.callee_outcome(m, state)}}
             if m in CURSOR_NEUTRAL or m.startswith(("create_node_", "action_", "predicate_", "assertion_", "delete_node_")):
@@ -665,7 +673,7 @@ def annotate(ix, ed, report, skeleton_only=False):
     if ext_keys:
         # external (unverified) functions may call anything on any token
         entries = set(fns)
-    it = Interp(alphabet, fns, entries)
+    it = Interp(alphabet, fns, entries, report.get("eoi", ["EOF"]))
     rounds = it.run()
     rank = it.ranks()
     st = ix.st
